@@ -4,8 +4,13 @@
    outcome of adding a structure of a foreign type through handles reached by chains of get_view / create_view.
    check_case: the model reader gives the same error kind / the same content; in lenient mode the model's result is
    also the model's strict result on the document filtered inside Coq (drop_unknown); every add outcome is the one the
-   guard gives for the handle's flag. *)
-From Cassis Require Import Base Offsets Heap Schema Canon Lex XmiDoc XmiLoad CorrC05.
+   guard gives for the handle's flag.
+   Second wave: the case also says how the bytes were handed to load_cas_from_xmi (string / open file / pathlib.Path)
+   and with which value of `trusted` (the model is XmiLoadC17.load_entry), and carries the numbers that operations done
+   AFTER the load received from the loaded CAS (an add of a fresh uima.cas.TOP through the CAS and through each view
+   handle, a new view, one more add): they are the ones the model's id generators hand out, and in lenient mode also
+   the ones the generators of the model's strict result on drop_unknown(document) hand out. *)
+From Cassis Require Import Base Offsets Heap Schema Canon Lex XmiDoc XmiLoad XmiLoadC17 CorrC05.
 Open Scope Z_scope.
 
 Inductive outcome := OErr (e : err) | OCas (cc : ccas).
@@ -14,7 +19,10 @@ Record case := mkCase {
   k_doc : xdoc;
   k_flts : list (string * flt);
   k_lenient : bool;
+  k_source : source;
+  k_trusted : bool;
   k_obs : outcome;
+  k_later : list (op * list Z);                           (* operations after the load and the numbers they received *)
   k_adds : list (list string * tname * option err) }.     (* handle path, foreign type name, None = accepted *)
 
 Definition k_flt (c : case) : string -> option flt := fun a => alookup a (k_flts c).
@@ -34,16 +42,25 @@ Definition res_eqb (a b : res ccas) : bool :=
   | OutOfFuel, OutOfFuel => true
   | _, _ => false
   end.
+Definition later_ok (c : case) (g : gens) : bool :=
+  list_eqb (list_eqb Z.eqb) (run_ops g (map fst (k_later c))) (map snd (k_later c)).
+Definition gens_res_eqb (a b : res lcas) : bool :=
+  match a, b with
+  | Ok x, Ok y => gens_eqb (gens_of x) (gens_of y)
+  | Ok _, _ | _, Ok _ => false
+  | _, _ => true
+  end.
 Definition check_case (c : case) : bool :=
-  let r := load_xmi (k_flt c) (k_schema c) (k_lenient c) (k_doc c) in
+  let r := load_entry (k_flt c) (k_source c) (k_schema c) (k_lenient c) (k_trusted c) (k_doc c) in
   (match r, k_obs c with
    | Err e, OErr e' => err_eqb e e'
    | Ok lc, OCas cc => same_as_obs (as05 c cc) (canon_loaded (k_schema c) lc) && forallb (add_ok c lc) (k_adds c)
+                       && later_ok c (gens_of lc)
    | _, _ => false
    end)
   && (if k_lenient c
-      then res_eqb (content_of c r)
-                   (content_of c (load_xmi (k_flt c) (k_schema c) false (drop_unknown (k_schema c) (k_doc c))))
+      then let r' := load_xmi (k_flt c) (k_schema c) false (drop_unknown (k_schema c) (k_doc c)) in
+           res_eqb (content_of c r) (content_of c r') && gens_res_eqb r r'
       else true).
 (* premise of C17_lenient_is_filter *)
 Definition premises (c : case) : bool := dropped_ids_okb (k_schema c) (k_doc c).
